@@ -3,4 +3,4 @@ Require Extraction.
 Require Import ExtrOcamlBasic.
 From Gatery Require Import NamesDefs VhdlLexDefs.
 Extraction "c13_model.ml" init_state step run legal_basic_ident lower
-  lex decl_sites check_design check_design_tokens ident_ok events_ok.
+  lex decl_sites check_design check_design_tokens ident_ok events_ok kw_name sym_name.
